@@ -37,6 +37,7 @@ func runC15(c *eng.Ctx) {
 	entryCutByTheOffsetsTable(c)
 	mergedIteratorAlwaysLatches(c)
 	findFilesReturnsItsOwnSlice(c)
+	editRecordTouchesOnlyItsLevel(c)
 	everyScanHasItsOwnIterator(c)
 	onlyCommitAddsAKey(c)
 
